@@ -87,6 +87,7 @@ fn main() {
   let evaluated = AtomicU64::new(0);
   let renames = AtomicU64::new(0);
   let invalid_renames = AtomicU64::new(0);
+  let member_name_renames = AtomicU64::new(0);
   let kinds_seen: Mutex<BTreeMap<&'static str, u64>> = Mutex::new(BTreeMap::new());
   let samples: Mutex<Vec<Value>> = Mutex::new(vec![]);
   let distinct: Mutex<HashSet<(String, L)>> = Mutex::new(HashSet::new());
@@ -97,6 +98,9 @@ fn main() {
       // behaviour cannot be compared for this program; definitions / references / renames still are
       eprintln!("NOTE: {} does not type-check, behaviour is not compared: {}", prog.name, e.lines().find(|l| !l.trim().is_empty() && !l.starts_with("Error")).unwrap_or("").trim());
     }
+    // names of fields / methods / functions of the classes of each target module that are not the name
+    // of any local of that module (candidates for "rename a local to a name of another namespace")
+    let mut other_namespace_names: HashMap<String, Vec<String>> = HashMap::new();
     // work items: (target module, group index, occurrence) — each worker builds its own server
     let mut items: Vec<(String, Group, L, bool)> = vec![];
     for tname in &prog.targets {
@@ -105,7 +109,27 @@ fn main() {
       let mut es = ErrorSet::new();
       let mr = mod_ref(&mut heap, tname);
       let m = samlang_parser::parse_source_module_from_text(text, mr, &mut heap, &mut es);
-      for g in resolve(&heap, &m) {
+      let groups = resolve(&heap, &m);
+      {
+        let locals: HashSet<&str> = groups.iter().map(|g| g.name.as_str()).collect();
+        let mut names: Vec<String> = vec![];
+        let toks = synt::tokenize(text);
+        for w in toks.windows(2) {
+          // `val name`, `method name` / `method <T> name`, `function name` are declared member names
+          if w[0].kind == synt::TokKind::Keyword && matches!(w[0].text.as_str(), "val" | "method" | "function") && w[1].kind == synt::TokKind::Lower {
+            names.push(w[1].text.clone());
+          }
+        }
+        names.sort();
+        names.dedup();
+        names.retain(|n| !locals.contains(n.as_str()) && n != "main" && n != "init");
+        // quick: at most 3 names per module (first, middle, last)
+        if run.quick() && names.len() > 3 {
+          names = vec![names[0].clone(), names[names.len() / 2].clone(), names[names.len() - 1].clone()];
+        }
+        other_namespace_names.insert(tname.clone(), names);
+      }
+      for g in groups {
         for b in &g.bindings {
           items.push((tname.clone(), g.clone(), *b, true));
         }
@@ -249,6 +273,74 @@ fn main() {
               }
             }
           }
+          // rename to a name that already occurs in the module in ANOTHER namespace: the name of a
+          // field, of a method, of a function (locals live apart from those, so the rename is
+          // meaning-preserving as long as no local of that name exists). Binding occurrences only: the
+          // text before a binding is untouched, so the same position addresses it afterwards.
+          if *is_binding {
+            // step 1: to the fresh name (this also brings the document into the printer's layout, so
+            // that the position of the binding stays the same over the next renames)
+            let doc1 = rewrite::rename(&mut state, &mr, p, fresh);
+            // the binding is addressed by its token index (the printer may wrap lines differently when the
+            // name gets longer or shorter; the token sequence stays the same up to shorthand patterns)
+            let fresh_index = doc1.as_ref().and_then(|d| synt::tokenize(d).iter().position(|t| t.text == fresh));
+            let position_of = |doc: &str, name: &str, index: usize| -> Option<Position> {
+              let toks = synt::tokenize(doc);
+              (0..=4usize)
+                .flat_map(|d| [index.checked_sub(d), Some(index + d)])
+                .flatten()
+                .find(|j| toks.get(*j).is_some_and(|t| t.text == name))
+                .map(|j| Position(toks[j].line, toks[j].col))
+            };
+            let pf = match (&doc1, fresh_index) {
+              (Some(d), Some(i)) => position_of(d, fresh, i),
+              _ => None,
+            };
+            if let (Some(doc1), Some(pf), Some(fresh_index)) = (doc1, pf, fresh_index) {
+              for other in other_namespace_names.get(tname).into_iter().flatten() {
+                if other == &g.name {
+                  continue;
+                }
+                state.update(vec![(mr, doc1.clone())]);
+                member_name_renames.fetch_add(1, Ordering::Relaxed);
+                match rewrite::rename(&mut state, &mr, pf, other) {
+                  None => report("rename-to-member-name-none".into(), format!("rename to the member name `{other}` returns nothing")),
+                  Some(renamed) => {
+                    if dump_of(&renamed).is_none() {
+                      report("rename-to-member-name-does-not-parse".into(), format!("renamed to `{other}`: syntax errors in {:?}", renamed.chars().take(300).collect::<String>()));
+                      continue;
+                    }
+                    state.update(vec![(mr, renamed.clone())]);
+                    let n_new = rendered_errors_of(&state, &mr).len();
+                    if n_new != original_errors.len() {
+                      report("rename-to-member-name-changes-diagnostics".into(), format!("renamed to the member name `{other}`: {n_new} diagnostics (before: {}); first: {:?}", original_errors.len(), rendered_errors_of(&state, &mr).first().map(|e| e.chars().take(160).collect::<String>())));
+                    } else if let (Some(entry), Some(Ok(base))) = (&prog.entry, &baseline) {
+                      let mut mods = prog.modules.clone();
+                      mods.iter_mut().find(|m| &m.0 == tname).unwrap().1 = renamed.clone();
+                      match behaviour(&mods, entry) {
+                        Ok(b) if &b == base => {}
+                        Ok(b) => report("rename-to-member-name-changes-behaviour".into(), format!("renamed to the member name `{other}`: behaviour {b:?} vs before {base:?}")),
+                        Err(e) => report("rename-to-member-name-breaks-typing".into(), format!("renamed to the member name `{other}`: rejected: {}", e.chars().take(200).collect::<String>())),
+                      }
+                    }
+                    let Some(pb) = position_of(&renamed, other, fresh_index) else {
+                      report("rename-to-member-name-lost-binding".into(), format!("after renaming to the member name `{other}` the binding is no longer where it was"));
+                      continue;
+                    };
+                    match rewrite::rename(&mut state, &mr, pb, fresh) {
+                      None => report("rename-to-member-name-back-none".into(), format!("renaming back from `{other}` returns nothing")),
+                      Some(back) => {
+                        if dump_of(&back) != dump_of(&doc1) {
+                          report("rename-to-member-name-back-differs".into(), format!("renaming to the member name `{other}` and back does not restore the program"));
+                        }
+                      }
+                    }
+                  }
+                }
+              }
+              state.update(vec![(mr, original_text.clone())]);
+            }
+          }
           let mut sp = samples.lock().unwrap();
           if sp.len() < 300 {
             sp.push(json!({"program": prog.name, "module": tname, "occurrence": occ_desc, "group_size": want_refs.len()}));
@@ -270,6 +362,7 @@ fn main() {
       "samples": spaced_samples(&pool, 8),
       "renames_performed": renames.load(Ordering::Relaxed),
       "rename_requests_with_invalid_names": invalid_renames.load(Ordering::Relaxed),
+      "renames_of_a_binding_to_a_field_method_or_function_name_of_the_module": member_name_renames.load(Ordering::Relaxed),
       "occurrences_per_binding_kind": kinds_seen.lock().unwrap().clone(),
       "programs": programs.len(),
       "exhaustive": true,
